@@ -26,13 +26,16 @@ func runC19(s *core.Sim, tier string) RunInfo {
 	w := newYW(s, 1, age, space)
 	// both thresholds are set explicitly: the oracle uses configured values only
 	R := time.Duration(2+s.Tape.Draw("recency-blocks", 5)) * space
-	TP := time.Duration(core.Pick(s.Tape, "trusting-min", []int{5, 10, 30, 600})) * time.Minute
+	TP := time.Duration(core.Pick(s.Tape, "trusting-min", []int{5, 10, 30, 120})) * time.Minute
 	if simhdr.Cfg.TrustRange < 1<<40 && TP > 10*time.Minute {
 		// with a short trust range a re-initialisation bifurcates over the whole
 		// expired distance: keep that distance (and the run) small
 		TP = 10 * time.Minute
 	}
 	s.SchedDen = core.Pick(s.Tape, "sched-den", []int{1, 2, 4})
+	// every expiry of a long trusting period is followed by a sync over that many blocks
+	// (2400 per expiry at most), each block a handful of park points
+	s.MaxSteps = 1500000
 	var hist []string
 	groups := 0
 	info := func() RunInfo {
@@ -82,7 +85,7 @@ func runC19(s *core.Sim, tier string) RunInfo {
 	settleSync()
 	nops := 4 + s.Tape.Draw("nops", 12)
 	for i := 0; i < nops && !s.Failed(); i++ {
-		switch core.Pick(s.Tape, "op", []string{"head", "head", "head", "clock-small", "clock-over", "clock-expire", "gossip", "halt"}) {
+		switch core.Pick(s.Tape, "op", []string{"head", "head", "head", "clock-small", "clock-over", "clock-expire", "gossip", "gossip-heads", "halt"}) {
 		case "clock-small":
 			d := time.Duration(1+s.Tape.Draw("ms", int(R/time.Millisecond)-1)) * time.Millisecond
 			hist = append(hist, fmt.Sprintf("clock +%v", d))
@@ -117,6 +120,67 @@ func runC19(s *core.Sim, tier string) RunInfo {
 			s.Settle(6*time.Minute, t)
 			hist = append(hist, fmt.Sprintf("gossip %d err=%v", h.Height(), err != nil))
 			if err == nil && h.Height() > accepted {
+				accepted = h.Height()
+			}
+			settleSync()
+		case "gossip-heads":
+			// Head() callers asking repeatedly while a freshly gossiped head is being applied by the
+			// sync loop (pending -> stored): whatever path serves a call, what one caller is told
+			// never goes down, nor below what earlier calls were told
+			s.Sleep(time.Duration(1+s.Tape.Draw("new-blocks", 3)) * space)
+			h := w.Ch.At(w.NetHead())
+			var gerr error
+			tasks := []*core.Task{s.Go("gossip", func() {
+				c, cancel := context.WithTimeout(ctx, 5*time.Minute)
+				defer cancel()
+				gerr = w.Sub.Deliver(c, h)
+			})}
+			nc := 1 + s.Tape.Draw("callers", 3)
+			seqs := make([][]uint64, nc)
+			for j := 0; j < nc; j++ {
+				j := j
+				times := 2 + s.Tape.Draw("times", 3)
+				tasks = append(tasks, s.Go(fmt.Sprintf("head%d", j), func() {
+					c, cancel := context.WithTimeout(ctx, 5*time.Minute)
+					defer cancel()
+					for k := 0; k < times; k++ {
+						x, err := w.Sy.Head(c)
+						if err != nil {
+							continue
+						}
+						if !w.Ch.Is(x) {
+							s.Violate("head-not-honest", map[string]string{"state": "syncing", "script": "gossip"}, "Head() returned %v", x)
+							return
+						}
+						seqs[j] = append(seqs[j], x.Height())
+					}
+				}))
+			}
+			if stuck := s.Settle(11*time.Minute, tasks...); len(stuck) > 0 {
+				s.Violate("hang", map[string]string{"op": "Head"}, "Head() racing a gossiped head did not return")
+				break
+			}
+			hist = append(hist, fmt.Sprintf("gossip %d err=%v racing Head() callers %v", h.Height(), gerr != nil, seqs))
+			top := lastReturned
+			for _, seq := range seqs {
+				prev := lastReturned
+				for _, x := range seq {
+					if x < prev {
+						s.Violate("head-went-back", map[string]string{"state": "syncing", "script": "gossip"}, "Head() returned height %d after %d had been returned (callers saw %v while head %d was being applied) [%v]", x, prev, seqs, h.Height(), hist)
+						break
+					}
+					prev = x
+				}
+				if prev > top {
+					top = prev
+				}
+			}
+			s.Probe("heads-racing-gossip")
+			lastReturned = top
+			if top > accepted {
+				accepted = top
+			}
+			if gerr == nil && h.Height() > accepted {
 				accepted = h.Height()
 			}
 			settleSync()
